@@ -26,7 +26,8 @@ from vf.mon import census, failpoints
 PROP = "C06"
 LEVEL = "fault_enumeration"
 RULE = (
-    "E1 programs in the 'faults' flavour (slots, fills, providers/consumers, hooks, harness filter and tag as user-code points) x "
+    "E1 programs in the 'faults' flavour (slots, fills, providers/consumers, hooks, harness filter and tag as user-code points, "
+    "Class.render() called from get_context_data() of a nested component) x "
     "one context behaviour each; for every callback index i of the clean run the render with invocation i raising one of ValueError"
     "('m'), KeyError(7), OSError(2,'x'), a custom multi-line exception (kind rotates with i; all four in the thorough tier); plus "
     "Python-route renders with slot functions; distinct by (program, failpoint index, exception kind); non-trivial = the failpoint is "
@@ -136,7 +137,8 @@ def program_fault_sweep(env, rec, prog, mode, kinds, seedinfo):
                 cname = where[1]
                 if cname is not None:
                     reg = built.names[cname]
-                    if PREFIX not in emsg or reg not in emsg:
+                    # (a component rendered from Python - Class.render() inside get_context_data() - is named by its class)
+                    if PREFIX not in emsg or (reg not in emsg and built.classes[cname].__name__ not in emsg):
                         rec.violation("exception-not-annotated-with-path", case, {"what": f"failing component {reg}; message {emsg[:300]!r}"})
                         continue
                 exc = None
